@@ -415,9 +415,7 @@ func Run(c Case) (res Result) {
 
 	defer pipe.Release()
 
-	t0 := time.Now()
 	openErr := d.Open()
-	elapsed := time.Since(t0)
 
 	collect := func() {
 		logMu.Lock()
@@ -470,13 +468,7 @@ func Run(c Case) (res Result) {
 		return res
 	}
 
-	// a failed Open also closes the channel, which may wait out its grace period (ReadDelay^2/1000)
-	rd := time.Duration(c.ReadDelayNS)
-	if got == "timeout" && (elapsed < timeout || elapsed > timeout+50*rd+rd*(rd/1000)+time.Millisecond) {
-		res.Verdict = ev.Fail("timeout after %v, configured %v", elapsed, timeout)
-
-		return res
-	}
+	// (how long a timed-out Open takes is C05's business: the statement here only fixes the class)
 
 	// credential/state pairing and bounds
 	for _, l := range dev.Log {
